@@ -22,7 +22,9 @@
   declaring it Open.
   Time is abstract: `pingDue` is "the ping loop's sleep ends", `pingSilence` is "five seconds
   passed since the ping was queued and no Rping arrived".  Tags are opaque keys (the tag pool
-  is C11's subject): the tag the pool handed out is a parameter of `req`.  Import-free.
+  is C11's subject): the tag the pool handed out is a parameter of `req`.  Callers of
+  `AsyncProcessRequest` that arrive while the open is pending block on the open result (`PSt`:
+  the transport, a connect in progress, the blocked callers).  Import-free.
 -/
 import ScalesModel.Model.Transport
 namespace Scales.MuxT
@@ -207,7 +209,7 @@ def St.pingSilence (s : St) : St × Out :=
 
 /-- `AsyncProcessRequest` (two-way message, no deadline event) followed by a drain -/
 def St.request (s : St) (id tag : Nat) : St × Out :=
-  if s.opening then (s, {})            -- the caller would block on the open result: not modelled
+  if s.opening then (s, {})            -- the caller would block on the open result: `PSt.park`
   else if s.cstate = .opened then
     (({ s with tagMap := s.tagMap ++ [(tag, id)], sendQ := s.sendQ ++ [.req tag id] } : St).pump, {})
   else (s, { eff := { dels := [(id, .other)] } })
@@ -331,6 +333,80 @@ def St.openBurst (s : St) (rs : List (IOOut × Frame)) : St × Out :=
   let r1 := s.openT .ok
   let r2 := r1.1.burst rs
   (r2.1, { eff := { faults := r2.2.eff.faults, dels := r2.2.eff.dels, conns := r1.2.eff.conns } })
+
+/-! ### callers blocked on the open result
+
+  `AsyncProcessRequest` on a transport whose `Open()` is pending (`_state == Idle and
+  _open_result`) blocks in `_open_result.wait()`.  The open is pending while `_OpenImpl` is
+  blocked in `socket.open()` (`connecting`: a connect takes time, and the greenlet yields in it)
+  and then while it waits for the handshake's Rping (`St.opening`).  The callers resume when the
+  result is set — by `_OpenImpl` returning (success), or by the `_Shutdown` that fails the
+  pending result (refused connect, a read or write fault during the handshake, ping silence,
+  `Close()`) — and they resume *last* in that drain, oldest first: the notification of the result's
+  waiters is scheduled when the result is set, behind everything that was already runnable.
+  Each of them then goes on with `AsyncProcessRequest` on the transport as it is by then: Open — a
+  tag, the tag map, the send queue; shut down — the 'Sink not open.' error, and nothing is
+  queued. -/
+
+/-- the transport right after `Open()` while `_OpenImpl` is blocked in the connect: the open
+    result exists and is pending, no loop has been spawned yet -/
+def St.connecting0 : St := { St.init with hasOpenResult := true, openRes := .pending }
+
+/-- the transport together with the callers blocked on its open result -/
+structure PSt where
+  t : St
+  connecting : Bool := false          -- `_OpenImpl` is blocked in `self._socket.open()`
+  parked : List (Nat × Nat) := []     -- (request id, the tag the pool hands it if it goes on), oldest first
+  deriving Repr, DecidableEq
+
+def PSt.init : PSt := { t := St.init }
+
+/-- `self._state == Idle and self._open_result`: a caller of `AsyncProcessRequest` blocks -/
+def PSt.waiting (ps : PSt) : Bool :=
+  ps.t.opening || (ps.connecting && decide (ps.t.cstate = .idle))
+
+/-- the blocked callers resume, oldest first: each goes on with `AsyncProcessRequest` -/
+def parkedGo : List (Nat × Nat) → St → St × List (Nat × Resp)
+  | [], t => (t, [])
+  | p :: rest, t =>
+    let r1 := t.request p.1 p.2
+    let r2 := parkedGo rest r1.1
+    (r2.1, r1.2.eff.dels ++ r2.2)
+
+/-- the end of the drain of an operation that took the transport to `t'`: if the open result
+    has been set meanwhile the blocked callers resume — after everything else of that drain -/
+def PSt.finish (ps : PSt) (t' : St) (c' : Bool) (o : Out) : PSt × Out :=
+  if ({ t := t', connecting := c', parked := ps.parked } : PSt).waiting then
+    ({ t := t', connecting := c', parked := ps.parked }, o)
+  else
+    let w := parkedGo ps.parked t'
+    ({ t := w.1, connecting := c', parked := [] },
+     { o with eff := { o.eff with dels := o.eff.dels ++ w.2 } })
+
+/-- `Open()` whose connect does not conclude at once: `_OpenImpl` blocks in `socket.open()` -/
+def PSt.openStart (ps : PSt) : PSt × Out :=
+  if ps.t.cstate = .idle ∧ ps.t.hasOpenResult = false ∧ ps.connecting = false then
+    ({ ps with t := St.connecting0, connecting := true }, {})
+  else (ps, {})
+
+/-- the connect in progress concludes: refused, or accepted — then, as in `openBurst`, with the
+    outcomes `rs` of the receive loop's first reads already there (`[]`: nothing yet).  If
+    `Close()` was called meanwhile `_OpenImpl` goes on on a transport that is shut down: the
+    loops it spawns end at once, nothing is visible any more (but the connect attempt). -/
+def PSt.connected (ps : PSt) (r : Conn) (rs : List (IOOut × Frame)) : PSt × Out :=
+  if ps.connecting then
+    if ps.t.cstate = .closed then ({ ps with connecting := false }, { eff := { conns := 1 } })
+    else
+      match r with
+      | .refuse => let x := St.init.openT .refuse; ps.finish x.1 false x.2
+      | .ok => let x := St.init.openBurst rs; ps.finish x.1 false x.2
+  else (ps, {})
+
+/-- `AsyncProcessRequest` while the open is pending: the caller blocks.  `tag`: what the pool
+    hands it if it goes on after a successful open. -/
+def PSt.park (ps : PSt) (id tag : Nat) : PSt × Out :=
+  if ps.waiting then ({ ps with parked := ps.parked ++ [(id, tag)] }, {})
+  else (ps, {})                      -- it would not block: that is `request`
 
 /-! ### the code as found (before repair F16), for the counterexample theorem only -/
 
